@@ -47,6 +47,9 @@ def cases(tier, seed):
             out.append({"h": "H15", "collect": col, "dests": dests, "same_tag": True, "stop_at": None, "_w": 3})
         for tail in ([1], [1, 1], [1, 0], [2, 1]):
             out.append({"h": "H15", "collect": col, "dests": [1] + tail, "purge_after": 0, "stop_at": None, "_w": 3})
+        # two pending answers of the stopped instance with other entries queued behind them
+        for tail in ([1], [1, 1], [1, 2]):
+            out.append({"h": "H15", "collect": col, "dests": [1] + tail, "purge_after": 0, "purge_n": 2, "purge_late": True, "stop_at": None, "_w": 3})
     return out
 
 
@@ -95,14 +98,22 @@ def h15(E, M, case):
             tag[0] += 1
             purged.append(tg)
             reqs.append((0x0F00, DESTS[di], t))
-            sc.at(t, lambda d=DESTS[di]: inst._send_offer(d), "q%d" % i)
-            t = t + E.int("dtp", 0, 20)
-            sc.at(t, lambda: ann.discard_queued_offers(inst), "purge")
+            for rep in range(case.get("purge_n", 1)):
+                if rep:
+                    reqs.append((0x0F00, DESTS[di], t))
+                sc.at(t, lambda d=DESTS[di]: inst._send_offer(d), "q%d_%d" % (i, rep))
+            if not case.get("purge_late"):
+                t = t + E.int("dtp", 0, 20)
+                sc.at(t, lambda: ann.discard_queued_offers(inst), "purge")
             continue
         if case.get("stop_at") == i:
             sc.at(t, ann.stop, "stop%d" % i)
         # a burst is one application call sequence inside a single callback
         request(DESTS[di], t, "q%d" % i, n=case["burst"] if case.get("burst") and i == 0 else 1)
+    if inst is not None and case.get("purge_late"):
+        # the discard comes after all other requests (0..20 ms later)
+        t = t + E.int("dtp", 0, 20)
+        sc.at(t, lambda: ann.discard_queued_offers(inst), "purge")
     sc.flush()
     H = t + 50
     loop.settle(H)
@@ -133,20 +144,19 @@ def h15(E, M, case):
     for tg, dest, tq in reqs:
         mine = [s for s in sent if s[0] == tg]
         if tg == 0x0F00:
-            # the discarded offer: sent once if it left before the discard, else not at all
-            E.require(len(mine) <= 1, "a discarded offer is sent at most once")
-            if not mine:
-                reqs = [r for r in reqs if r[0] != 0x0F00]
+            # discarded offers: each sent once if it left before the discard, else not at all
+            nreq = len([r for r in reqs if r[0] == 0x0F00])
+            E.require(len(mine) <= nreq, "a discarded offer is sent at most once")
             continue
         E.require(len(mine) == 1, "every queued entry is transmitted exactly once", {"tag": tg, "times": len(mine)})
         for s in mine:
             E.reach("h15.sent")
             E.require(s[1] == (dest if dest is not None else MC), "entries go to the destination they were queued for", {"tag": tg, "to": str(s[1])})
             E.require(E.And(s[2] >= tq, s[2] <= tq + C), "an entry leaves no later than the collection timeout after it was queued", {"tag": tg})
-    E.require(len(sent) == len(reqs), "nothing is transmitted that was not queued")
+    E.require(len([x for x in sent if x[0] != 0x0F00]) == len([r for r in reqs if r[0] != 0x0F00]), "nothing is transmitted that was not queued")
     for d in DESTS:
-        want = [tg for tg, dest, tq in reqs if dest == d]
-        got = [s[0] for s in sent if s[1] == (d if d is not None else MC)]
+        want = [tg for tg, dest, tq in reqs if dest == d and tg != 0x0F00]
+        got = [s[0] for s in sent if s[1] == (d if d is not None else MC) and s[0] != 0x0F00]
         E.require(got == want, "entries for one destination leave in the order they were queued", {"dest": str(d), "got": got, "want": want})
     if C == 0:
         E.require(len(tr.sent) == len(reqs), "with a zero collection timeout every entry is sent in a message of its own")
